@@ -625,6 +625,10 @@ def _call(out, case, probe, name, fname, t, units):
                            "with both set (%s)" % (fname, t, exc))
             return None
         raise
+    except (TypeError, ArithmeticError) as exc:
+        kw = "Tk" if units == "K" else "Tc"
+        out.fail("materials/%s-raises-%s" % (fname, type(exc).__name__), "%s.%s(%s=%r) raises %s: %s" % (name, fname, kw, t, type(exc).__name__, exc))
+        return None
 
 
 def _judge(out, case, probe, name, fname, t, units, fluid):
@@ -701,6 +705,57 @@ def _cross_checks(out, case, probe, name, fname, t, units, fluid, v1):
                   lambda: "%s at %r %s: density %r pseudoDensity %r" % (name, t, units, v1, pv))
 
 
+def _breakpoints(cls):
+    """Candidate breakpoints of the class's piecewise correlations, collected mechanically: every numeric literal that
+    appears in a comparison inside the source of the class and of its bases in armi.materials, and every entry of a
+    class-level numeric table (interpolation knots).  Sorted list of floats (unit unknown: tried as K and as C)."""
+    import ast
+    import inspect
+    import textwrap
+
+    vals = set()
+
+    def lit(node):
+        if isinstance(node, ast.Constant) and isinstance(node.value, (int, float)) and not isinstance(node.value, bool):
+            return float(node.value)
+        if isinstance(node, ast.UnaryOp) and isinstance(node.op, (ast.USub, ast.UAdd)):
+            v = lit(node.operand)
+            if v is not None:
+                return -v if isinstance(node.op, ast.USub) else v
+        return None
+
+    for base in cls.__mro__:
+        if not getattr(base, "__module__", "").startswith("armi.materials"):
+            continue
+        try:
+            tree = ast.parse(textwrap.dedent(inspect.getsource(base)))
+        except (OSError, TypeError, SyntaxError):
+            tree = None
+        if tree is not None:
+            for node in ast.walk(tree):
+                if isinstance(node, ast.Compare):
+                    for sub in [node.left] + list(node.comparators):
+                        v = lit(sub)
+                        if v is not None:
+                            vals.add(v)
+        for attr, obj in sorted(vars(base).items()):
+            if isinstance(obj, (list, tuple)) and len(obj) >= 2 and all(_isreal(x) for x in obj):
+                vals.update(float(x) for x in obj)
+    return sorted(v for v in vals if math.isfinite(v))
+
+
+def _breakpoint_temps(cands, lo, hi, units):
+    """Breakpoint candidates read as K and as C, expressed in ``units``, inside [lo, hi], each with both float neighbours."""
+    pts = set()
+    for c in cands:
+        for t in (c, c + _C_TO_K if units == "K" else c - _C_TO_K):
+            if lo <= t <= hi:
+                for q in (t, math.nextafter(t, -math.inf), math.nextafter(t, math.inf)):
+                    if lo <= q <= hi:
+                        pts.add(q)
+    return sorted(pts)
+
+
 def _grid(lo, hi, n):
     if hi <= lo:
         return [lo]
@@ -774,6 +829,7 @@ def mat_execute(case):
               lambda: "%s.duplicate() does not reproduce composition/refDens" % name)
 
     # ---- properties over their stated ranges
+    cands = _breakpoints(cls)
     for fname in _FUNCS:
         dom = _function_domain(probe, fname)
         if dom == "unavailable":
@@ -792,6 +848,19 @@ def mat_execute(case):
             evals += 1
             v1 = _judge(out, case, probe, name, fname, t, units, fluid)
             _cross_checks(out, case, probe, name, fname, t, units, fluid, v1)
+        if dom is not None:
+            # exact breakpoints of piecewise correlations / table knots, with both float neighbours, in both call forms
+            bps = _breakpoint_temps(cands, lo, hi, units)
+            out.labels.extend(["breakpoint-temperature"] * len(bps))
+            for t in bps:
+                evals += 1
+                v1 = _judge(out, case, probe, name, fname, t, units, fluid)
+                _cross_checks(out, case, probe, name, fname, t, units, fluid, v1)
+                t2, u2 = _other(t, units)
+                for q in (t2, math.nextafter(t2, -math.inf), math.nextafter(t2, math.inf)):
+                    if lo <= _other(q, u2)[0] <= hi:
+                        evals += 1
+                        _judge(out, case, probe, name, fname, q, u2, fluid)
     out.evals = evals
     out.nontrivial_count = evals
     return out
@@ -1070,7 +1139,9 @@ PARTS = [
     Part("materials", mat_execute, enumerate=mat_enum, exhaustive=True, procs={"quick": 4, "thorough": 16},
          rule="every Material class in the armi.materials namespace (one case per class): instantiates; mass-fraction keys are nuclide "
               "names, fractions in [0,1] summing to 1 (1e-5); density, pseudoDensity (> 0, finite), linearExpansionPercent, "
-              "linearExpansion (finite) on a dense grid incl. both end points of the function's stated range, Tk and Tc entry agree, "
+              "linearExpansion (finite) on a dense grid incl. both end points of the function's stated range and at every breakpoint "
+              "candidate (numeric literals in comparisons and class-level table knots, read as K and C, with both float neighbours, "
+              "Tk and Tc call forms), Tk and Tc entry agree, "
               "fluid density = pseudoDensity, the material's own range check accepts the stated range; non-trivial = every evaluation",
          bound=lambda t: "all classes; %d temperatures per stated range" % _GRID[t]),
     Part("material_temps", temps_execute, strategy=temps_strategy, budget={"quick": 2000, "thorough": 60000}, procs={"quick": 4, "thorough": 16},
